@@ -71,8 +71,12 @@ def make_box(cls, b):
         box = mod.Box(b["name"], cod if b.get("dagger") else dom,
                       dom if b.get("dagger") else cod, data)
     elif b.get("data") is not None and cls in ("monoidal", "rigid", "pro"):
+        data = b["data"]
+        if data == "phi":
+            import sympy
+            data = sympy.Symbol("phi")          # a free symbol, for subs()
         box = mod.Box(b["name"], cod if b.get("dagger") else dom,
-                      dom if b.get("dagger") else cod, data=b["data"])
+                      dom if b.get("dagger") else cod, data=data)
     else:
         box = mod.Box(b["name"], cod if b.get("dagger") else dom,
                       dom if b.get("dagger") else cod)
@@ -82,7 +86,8 @@ def make_box(cls, b):
 
 
 def spec_model(spec):
-    boxes = [M.mbox(b["name"] if b.get("data") is None else "%s#%r" % (b["name"], b["data"]),
+    boxes = [M.mbox(b["name"] if b.get("data") is None else "%s#%s" % (
+                        b["name"], b["data"] if b["data"] == "phi" else repr(b["data"])),
                     b["dom"], b["cod"], b.get("kind", "box"),
                     b.get("dagger", False)) for b in spec["boxes"]]
     return M.mdiagram(spec["dom"], boxes, spec["offsets"])
@@ -208,7 +213,7 @@ def gen_monoidal(rng, nboxes, cls="monoidal", atoms=("x", "y"), maxw=6,
         boxes.append({"name": name, "dom": bdom, "cod": bcod, "kind": "box",
                       "dagger": cls in ("monoidal", "rigid") and rng.random() < 0.1})
         if cls in ("monoidal", "rigid") and name in ("f", "g") and rng.random() < 0.5:
-            boxes[-1]["data"] = rng.randint(0, 1)        # equal name and type, other data
+            boxes[-1]["data"] = rng.choice([0, 1, "phi"])        # equal name and type, other data
         offsets.append(off)
         cur = cur[:off] + bcod + cur[off + nin:]
         prod = prod[:off] + [k] * nout + prod[off + nin:]
